@@ -74,6 +74,9 @@ pub struct FwdTrace {
     pub facts: [i64; 3],
     pub ops: Vec<FOp>,
     pub tick_pattern: Vec<u8>,
+    /// configuration swarm: (enable_stats, debug_mode, a timeout of an hour that can never expire)
+    #[serde(default)]
+    pub cfg: (bool, bool, bool),
 }
 
 pub struct FwdWorld;
@@ -625,6 +628,7 @@ impl World for FwdWorld {
             facts: [rng.range(0, 3), rng.range(0, 3), rng.range(0, 3)],
             ops,
             tick_pattern: if rng.chance(1, 5) { vec![*rng.pick(&[1u8, 250, 250]), 0] } else { vec![] },
+            cfg: (rng.chance(1, 3), rng.chance(1, 10), rng.chance(1, 6)),
         }
     }
 
@@ -638,7 +642,7 @@ impl World for FwdWorld {
         clock::set_tick_pattern(t.tick_pattern.clone());
         obs.faulty = !t.tick_pattern.is_empty() || t.ops.iter().any(|o| matches!(o, FOp::ClockSet(_)));
         let kb = KnowledgeBase::new("kb");
-        let mut engine = RustRuleEngine::with_config(kb, EngineConfig { max_cycles: t.max_cycles, timeout: None, enable_stats: false, debug_mode: false });
+        let mut engine = RustRuleEngine::with_config(kb, EngineConfig { max_cycles: t.max_cycles, timeout: if t.cfg.2 { Some(std::time::Duration::from_secs(3600)) } else { None }, enable_stats: t.cfg.0, debug_mode: t.cfg.1 });
         let facts = Facts::new();
         let mut obj = HashMap::new();
         obj.insert("x".to_string(), Value::Integer(t.facts[0]));
